@@ -82,6 +82,7 @@ let run_case (ops : string list) : string list =
                              | "publish" -> (OPublish (key, JNum (str_of_string "1")), "ack")
                              | "lock" -> (OLock (n_of_int 9, key), "ack")
                              | "get" -> (OGet key, "state")
+                             | "import" -> (OImport (JObj []), "imported")
                              | _ -> failwith "fwrite") in
           res_str (snd (fstep_api fc o)).o_res okname
       | "sync" ->
